@@ -12,14 +12,20 @@ import (
 
 	"verif/internal/pdfdoc"
 
+	"verif/internal/pdfw"
+
 	tabula "github.com/tsawler/tabula"
+	"github.com/tsawler/tabula/reader"
 )
 
 var docFilesOnce sync.Once
 var docFilePaths map[string]string
+var docFileBytes map[string][]byte
+var swapMu sync.Mutex
 
 func writeDocFiles() {
 	docFilePaths = map[string]string{}
+	docFileBytes = map[string][]byte{}
 	dir := os.Getenv("VERIF_SCRATCH")
 	if dir == "" {
 		dir = os.TempDir()
@@ -31,6 +37,7 @@ func writeDocFiles() {
 		p := filepath.Join(dir, fmt.Sprintf("hist-%d-%s%s", os.Getpid(), name, ext))
 		if os.WriteFile(p, data, 0o644) == nil {
 			docFilePaths[name] = p
+			docFileBytes[name] = data
 		}
 	}
 	l1 := pdfdoc.Layout{Doc: 1, XRef: "table", ObjStm: "none", Filter: "fl", Length: "refAfter", Size: "big", Split: 2,
@@ -42,6 +49,50 @@ func writeDocFiles() {
 	put("pdfA", ".pdf", b, err)
 	b, err = pdfdoc.Build(l2, base, []pdfdoc.Item{{2, 11}, {1, 12}}, []pdfdoc.Item{{3, 21}})
 	put("pdfB", ".pdf", b, err)
+	// twins of pdfA / pdfB: same object numbers and resource names, other code permutations in the fonts
+	pdfdoc.TwinShift = 5
+	b, err = pdfdoc.Build(l1, base, []pdfdoc.Item{{2, 11}}, []pdfdoc.Item{{3, 21}})
+	put("pdfA2", ".pdf", b, err)
+	b, err = pdfdoc.Build(l2, base, []pdfdoc.Item{{2, 11}, {1, 12}}, []pdfdoc.Item{{3, 21}})
+	put("pdfB2", ".pdf", b, err)
+	pdfdoc.TwinShift = 0
+	// ties: four blocks of two lines each, every block with its own font size and left edge - the most frequent
+	// size / margin / alignment is a four-way tie, so a choice made in map-iteration order shows as soon as the
+	// extraction is repeated
+	var tie []pdfdoc.Placed
+	ty := 740
+	for blk, size := range []int{9, 11, 14, 18} {
+		for l := 0; l < 2; l++ {
+			tie = append(tie, pdfdoc.Placed{X: 72 + 24*blk, Y: ty, Size: size, Text: fmt.Sprintf("block %d line %d with some words in it", blk, l)})
+			ty -= size + 4
+		}
+		ty -= 28
+	}
+	b, err = pdfdoc.BuildSimple([][]pdfdoc.Placed{tie}, 612, 792)
+	put("pdfTie", ".pdf", b, err)
+	// documents on which an operation fails part-way: a page tree that loops back after its first leaf, one whose
+	// second kid is missing, and a page whose content stream does not decode
+	tree := func(kids pdfw.Arr, contents []byte) ([]byte, error) {
+		pg := func(c int) pdfw.Dict {
+			return pdfw.Dict{{"Type", pdfw.Name("Page")}, {"Parent", pdfw.Ref{Num: 2}}, {"MediaBox", pdfw.Arr{pdfw.Int(0), pdfw.Int(0), pdfw.Int(200), pdfw.Int(200 + c)}},
+				{"Contents", pdfw.Ref{Num: 5}}}
+		}
+		f := &pdfw.File{EOL: "lf"}
+		f.Revs = []pdfw.Revision{{XRef: "table", Root: pdfw.Ref{Num: 1}, Items: []pdfw.Item{
+			{Num: 1, Val: pdfw.Dict{{"Type", pdfw.Name("Catalog")}, {"Pages", pdfw.Ref{Num: 2}}}},
+			{Num: 2, Val: pdfw.Dict{{"Type", pdfw.Name("Pages")}, {"Kids", kids}, {"Count", pdfw.Int(len(kids))}}},
+			{Num: 3, Val: pg(0)}, {Num: 4, Val: pg(1)},
+			{Num: 5, Stm: &pdfw.Stream{Dict: pdfw.Dict{{"Filter", pdfw.Name("FlateDecode")}}, Data: contents}}}}}
+		b, _, err := f.Bytes()
+		return b, err
+	}
+	okStream := pdfw.Deflate([]byte("BT /F1 12 Tf 20 100 Td (handle) Tj ET"))
+	b, err = tree(pdfw.Arr{pdfw.Ref{Num: 3}, pdfw.Ref{Num: 2}, pdfw.Ref{Num: 4}}, okStream)
+	put("pdfKidsLoop", ".pdf", b, err)
+	b, err = tree(pdfw.Arr{pdfw.Ref{Num: 3}, pdfw.Ref{Num: 77}, pdfw.Ref{Num: 4}}, okStream)
+	put("pdfKidsMissing", ".pdf", b, err)
+	b, err = tree(pdfw.Arr{pdfw.Ref{Num: 3}, pdfw.Ref{Num: 4}}, []byte("this is not a zlib stream at all"))
+	put("pdfBadStream", ".pdf", b, err)
 	var placed [][]pdfdoc.Placed
 	for p := 0; p < 3; p++ {
 		pg := []pdfdoc.Placed{{X: 72, Y: 760, Size: 10, Text: "Running Header"}, {X: 300, Y: 25, Size: 10, Text: fmt.Sprintf("Page %d", p+1)}}
@@ -136,11 +187,115 @@ func fileDoc(name string) *hdoc {
 	return &hdoc{name: "file-" + name, run: run}
 }
 
+// swapDoc: the bytes of document `name` written under ONE path shared by all swap documents just before it is
+// opened - a result remembered per file name (rather than per content) shows as a difference. The write and the
+// extraction hold a lock, so swap documents never overlap each other (they do overlap every other document).
+func swapDoc(name string) *hdoc {
+	dir := filepath.Dir(docFilePaths[name])
+	shared := filepath.Join(dir, fmt.Sprintf("hist-%d-swap.pdf", os.Getpid()))
+	with := func(f func(path string) (string, error)) func() string {
+		return func() string {
+			swapMu.Lock()
+			defer swapMu.Unlock()
+			if err := os.WriteFile(shared, docFileBytes[name], 0o644); err != nil {
+				return "MACHINERY:" + err.Error()
+			}
+			s, err := f(shared)
+			if err != nil {
+				return errStr(err)
+			}
+			return s
+		}
+	}
+	return &hdoc{name: "swap-" + name, run: map[string]func() string{
+		"text":     with(func(p string) (string, error) { s, _, err := tabula.Open(p).Text(); return s, err }),
+		"markdown": with(func(p string) (string, error) { s, _, err := tabula.Open(p).ToMarkdown(); return s, err }),
+	}}
+}
+
+// handleDoc: operations on ONE open handle of the low-level reader and of the fluent API; "x@2" is the second
+// call of x on that handle and must give what the first call gives (also for documents whose page tree,
+// objects or streams are damaged, where the first call fails part-way).
+func handleDoc(name string) *hdoc {
+	path := docFilePaths[name]
+	page := func(rd *reader.Reader, i int) string {
+		pg, err := rd.GetPage(i)
+		if err != nil {
+			return errStr(err)
+		}
+		mb, _ := pg.MediaBox()
+		return fmt.Sprintf("page %v", mb)
+	}
+	count := func(rd *reader.Reader) string {
+		n, err := rd.PageCount()
+		if err != nil {
+			return errStr(err)
+		}
+		return fmt.Sprint(n)
+	}
+	nth := func(k int, f func(rd *reader.Reader) string) func() string {
+		return func() string {
+			rd, err := reader.Open(path)
+			if err != nil {
+				return errStr(err)
+			}
+			defer rd.Close()
+			var s string
+			for i := 0; i < k; i++ {
+				s = f(rd)
+			}
+			return s
+		}
+	}
+	ext := func(k int, f func(e *tabula.Extractor) string) func() string {
+		return func() string {
+			e := tabula.Open(path)
+			defer e.Close()
+			var s string
+			for i := 0; i < k; i++ {
+				s = f(e)
+			}
+			return s
+		}
+	}
+	text := func(e *tabula.Extractor) string {
+		s, _, err := e.Text()
+		if err != nil {
+			return errStr(err)
+		}
+		return s
+	}
+	pc := func(e *tabula.Extractor) string {
+		n, err := e.PageCount()
+		if err != nil {
+			return errStr(err)
+		}
+		return fmt.Sprint(n)
+	}
+	return &hdoc{name: "handle-" + name, run: map[string]func() string{
+		"reader-getpage0": nth(1, func(rd *reader.Reader) string { return page(rd, 0) }), "reader-getpage0@2": nth(2, func(rd *reader.Reader) string { return page(rd, 0) }),
+		"reader-getpage1": nth(1, func(rd *reader.Reader) string { return page(rd, 1) }), "reader-getpage1@2": nth(2, func(rd *reader.Reader) string { return page(rd, 1) }),
+		"reader-pagecount": nth(1, count), "reader-pagecount@2": nth(2, count),
+		"ext-text": ext(1, text), "ext-text@2": ext(2, text),
+		"ext-pagecount": ext(1, pc), "ext-pagecount@2": ext(2, pc),
+	}}
+}
+
 func init() {
 	fileDocGens = append(fileDocGens, func(salt int64) []*hdoc {
 		docFilesOnce.Do(writeDocFiles)
 		var out []*hdoc
-		for _, n := range []string{"pdfA", "pdfB", "pdfC", "pdfWide", "pdfStd", "docx", "xlsx", "pptx", "odt", "epub", "html", "bad", "trunc"} {
+		for _, n := range []string{"pdfA", "pdfKidsLoop", "pdfKidsMissing", "pdfBadStream"} {
+			if docFilePaths[n] != "" {
+				out = append(out, handleDoc(n))
+			}
+		}
+		for _, n := range []string{"pdfA", "pdfA2", "pdfC"} {
+			if docFilePaths[n] != "" {
+				out = append(out, swapDoc(n))
+			}
+		}
+		for _, n := range []string{"pdfA", "pdfA2", "pdfB", "pdfB2", "pdfTie", "pdfC", "pdfWide", "pdfStd", "docx", "xlsx", "pptx", "odt", "epub", "html", "bad", "trunc"} {
 			if docFilePaths[n] != "" {
 				out = append(out, fileDoc(n))
 			}
